@@ -1,5 +1,6 @@
 //! `sjh <property> <tier> <seed> [stats.json]` — runs the real serde_json in-process on generated
 //! cases and prints one line per case: `op args… => observation` (consumed by `sjdriver`).
+extern crate alloc;
 mod common;
 mod obs;
 mod gen;
@@ -25,6 +26,7 @@ mod c04;
 mod c04t;
 mod typed;
 mod c07;
+mod lexmath;
 
 fn main() {
     let args: Vec<String> = std::env::args().collect();
@@ -65,7 +67,7 @@ fn main() {
         "C15" => c15::run(&mut sink, thorough, seed),
         "C16" => { c16::run(&mut sink, thorough, seed); typed::run_tt(&mut sink, thorough, seed); }
         "C04" => c04::run(&mut sink, thorough, seed),
-        "C07" => c07::run(&mut sink, thorough, seed),
+        "C07" => { c07::run(&mut sink, thorough, seed); lexmath::run(&mut sink, thorough, seed); }
         "replay" => { /* replay lines are `op args…` on stdin */
             let mut s = String::new();
             use std::io::Read;
@@ -105,6 +107,7 @@ fn replay(sink: &mut common::Sink, toks: &[&str]) {
         "rtv" | "rtt" => c04::replay(sink, toks),
         "tt" | "tt3" | "pfxs" | "rfaults" => typed::replay(sink, toks),
         "f64rt" | "f32rt" | "f64pr" | "f32pr" | "f32all" => c07::replay(sink, toks),
+        "lm" => lexmath::replay(sink, toks),
         _ => eprintln!("cannot replay op {}", toks[0]),
     }
 }
